@@ -146,6 +146,8 @@ impl Elem {
 struct P<'a> {
     s: &'a [u8],
     i: usize,
+    /// tolerate undeclared namespace prefixes (XML 1.0 well-formedness without the Namespaces constraint)
+    lenient_ns: bool,
 }
 
 type Scope = Vec<(String, String)>; // (prefix, uri); "" prefix = default namespace
@@ -355,6 +357,7 @@ impl<'a> P<'a> {
                 scope.push((p.to_string(), v.clone()));
             }
         }
+        let lenient_ns = self.lenient_ns;
         let resolve = |qn: &str, is_attr: bool, scope: &Scope, pos: usize| -> Result<(Option<String>, String), XmlError> {
             match qn.split_once(':') {
                 Some((p, l)) => {
@@ -369,6 +372,7 @@ impl<'a> P<'a> {
                     }
                     match scope.iter().rev().find(|(sp, _)| sp == p) {
                         Some((_, uri)) => Ok((Some(uri.clone()), l.into())),
+                        None if lenient_ns => Ok((None, l.into())),
                         None => Err(XmlError { pos, msg: format!("undeclared namespace prefix {p}") }),
                     }
                 }
@@ -469,7 +473,17 @@ impl<'a> P<'a> {
 
 /// Parse a complete document. Trailing whitespace, comments and PIs after the root are allowed.
 pub fn parse(input: &str) -> Result<Doc, XmlError> {
-    let mut p = P { s: input.as_bytes(), i: 0 };
+    parse_with(input, false)
+}
+
+/// As `parse`, but an undeclared namespace prefix is not an error (the name keeps its prefix in
+/// `qname`, `ns` is None). Junos itself accepts e.g. `junos:comment` without a declaration.
+pub fn parse_lenient_ns(input: &str) -> Result<Doc, XmlError> {
+    parse_with(input, true)
+}
+
+fn parse_with(input: &str, lenient_ns: bool) -> Result<Doc, XmlError> {
+    let mut p = P { s: input.as_bytes(), i: 0, lenient_ns };
     let mut decl = None;
     if p.starts("<?xml") && matches!(p.s.get(5), Some(b' ' | b'\t' | b'\n' | b'\r' | b'?')) {
         match input.find("?>") {
